@@ -102,6 +102,9 @@ func c15seq(c *run.Ctx) {
 		{"exp-now", false, true, func(cl, hd map[string]interface{}, sg *signSpec) { cl["exp"] = now().Unix() }},
 		{"exp-string", false, true, func(cl, hd map[string]interface{}, sg *signSpec) { cl["exp"] = fmt.Sprint(now().Add(time.Hour).Unix()) }},
 		{"exp-bool", false, false, func(cl, hd map[string]interface{}, sg *signSpec) { cl["exp"] = true }},
+		{"exp-zero", false, false, func(cl, hd map[string]interface{}, sg *signSpec) { cl["exp"] = 0 }},
+		{"exp-zero-fraction", false, false, func(cl, hd map[string]interface{}, sg *signSpec) { cl["exp"] = 0.5 }},
+		{"exp-negative", false, false, func(cl, hd map[string]interface{}, sg *signSpec) { cl["exp"] = -1 }},
 		{"jti-absent", false, false, func(cl, hd map[string]interface{}, sg *signSpec) { delete(cl, "jti") }},
 		{"jti-empty", false, false, func(cl, hd map[string]interface{}, sg *signSpec) { cl["jti"] = "" }},
 		{"jti-number", false, false, func(cl, hd map[string]interface{}, sg *signSpec) { cl["jti"] = 12345 }},
@@ -413,12 +416,19 @@ func c15Bearer(c *run.Ctx, w0 *world.World, round int) {
 				cl["exp"] = now().Add(-time.Second).Unix()
 			}},
 			{"exp-now", false, true, func(cl, hd map[string]interface{}, sg *signSpec, f url.Values) { cl["exp"] = now().Unix() }},
+			{"exp-zero", false, false, func(cl, hd map[string]interface{}, sg *signSpec, f url.Values) { cl["exp"] = 0 }},
+			{"exp-zero-fraction", false, false, func(cl, hd map[string]interface{}, sg *signSpec, f url.Values) { cl["exp"] = 0.5 }},
 			{"exp-beyond-max", false, false, func(cl, hd map[string]interface{}, sg *signSpec, f url.Values) {
 				cl["exp"] = now().Add(maxDur + time.Minute).Unix()
 			}},
 			{"exp-beyond-max-no-iat", !true, !cfg.iatOpt, func(cl, hd map[string]interface{}, sg *signSpec, f url.Values) {
 				cl["exp"] = now().Add(maxDur + time.Minute).Unix()
 				delete(cl, "iat")
+			}},
+			{"exp-beyond-max-iat-postdated", false, false, func(cl, hd map[string]interface{}, sg *signSpec, f url.Values) {
+				// an issue time in the future must not move the window: exp is still far beyond now + maximum
+				cl["exp"] = now().Add(10 * maxDur).Unix()
+				cl["iat"] = now().Add(10*maxDur - time.Minute).Unix()
 			}},
 			{"exp-far-iat-backdated", false, true, func(cl, hd map[string]interface{}, sg *signSpec, f url.Values) {
 				cl["exp"] = now().Add(maxDur / 2).Unix()
